@@ -210,6 +210,7 @@ func programs(quick bool) []item {
 	out = append(out, fixtures...)
 	out = append(out, featureFixtures...)
 	out = append(out, libFixtures...)
+	out = append(out, nsPrograms(quick)...)
 	return out
 }
 
@@ -535,11 +536,14 @@ func main() {
 		if os.Getenv("C16_ONLY") != "hist" { // development aid: C16_ONLY=hist runs the history layer alone
 			items = programs(c.Quick())
 		}
+		if os.Getenv("C16_ONLY") == "ns" { // development aid: the namespace-section family alone
+			items = nsPrograms(c.Quick())
+		}
 		// the history layer runs next to the batches (its compiles are cheap, it needs one go build)
 		hwg.Add(1)
 		go func() {
 			defer hwg.Done()
-			if os.Getenv("C16_ONLY") == "progs" { // development aid: the program families alone
+			if os.Getenv("C16_ONLY") == "progs" || os.Getenv("C16_ONLY") == "ns" { // development aid: the program families alone
 				return
 			}
 			ho = runHistories(nil, hb, cli, repo, overlay, map[bool]int{true: 12, false: 12}[c.Quick()])
@@ -606,6 +610,9 @@ func main() {
 		for id, msg := range bo.rejected {
 			rejected++
 			c.Outcome("rejected")
+			if os.Getenv("C16_DEBUG") != "" {
+				fmt.Println("REJECTED", id, strings.ReplaceAll(lastLines(msg, 2), "\n", " | "))
+			}
 			// acceptable only as a reported compile error naming the construct
 			if strings.TrimSpace(msg) == "" {
 				c.Fail("silent-reject:"+famOf(id), "reported-compile-error", len(byID[id].Src), byID[id], "the compile command failed on this file without a diagnostic")
@@ -662,7 +669,7 @@ func main() {
 	c.Set("history_distinct_output_dirs_built_and_run", len(ho.beh))
 	c.Set("history_distinct_output_dirs_equal_to_fresh", nsame)
 	c.Assume("history layer: sources are four fixed files with three revisions each; mtimes are set explicitly (older / unchanged / equal to the generated file / one second newer); the generated go.mod is replaced by the harness's module; the scratch root inside EntryPath is relocated when a directory is built")
-	if c.Replay == "" && os.Getenv("C16_ONLY") != "progs" && (histories < 100 || nsame < 10) {
+	if c.Replay == "" && os.Getenv("C16_ONLY") != "progs" && os.Getenv("C16_ONLY") != "ns" && (histories < 100 || nsame < 10) {
 		c.HarnessError("vacuous: history layer ran %d histories over %d project states", histories, nsame)
 	}
 	if compared < 10 && c.Replay == "" && os.Getenv("C16_ONLY") != "hist" {
